@@ -280,6 +280,38 @@ def check_before(ctx, nf, f, c):
               f"equal first indices must recurse on (tail_1, tail_2) in this order; found {rec}", "recursion keeps argument order")
 
 
+def rule_g4(ctx):
+    """nth: the occurrence index ranges over ALL nodes of the container in document order (paths()), not only its direct children."""
+    m, entries = registry(ctx)
+    if "nth" not in entries:
+        raise Unrecognised("C04.G4", f"{PRED}:STANDARD_STRUCTURAL_PREDICATES", "nth not registered")
+    f = entries["nth"][1]
+    c = f"{PRED}:{f.name}"
+    params = [a.arg for a in f.args.args]
+    rets = [r for r in walk_local(f) if isinstance(r, ast.Return)]
+    loops = [n for n in walk_local(f) if isinstance(n, ast.For)]
+    main = [l for l in loops if src(l.iter).endswith(".paths()") and "get_subtree" in src(l.iter)]
+    ctx.check(len(main) == 1, "G4-nth-domain", c, "counting loop over <container>.paths()", site(f), f"loops iterate {[src(l.iter) for l in loops]}", "all nodes of the container in pre-order")
+    for r in rets:
+        v = src(r.value)
+        if v == "False":
+            continue
+        inside_main = any(r in list(ast.walk(l)) for l in main)
+        if inside_main and v.replace(" ", "") in ("match_idx==int(n)",):
+            ctx.ok("G4-nth-domain", c, f"return {v}", site(r), "index compared inside the document-order loop")
+            continue
+        reads_children = any(isinstance(x, ast.Attribute) and x.attr == "children" for x in ast.walk(r.value)) or any(
+            isinstance(x, ast.Attribute) and x.attr == "children" for n in walk_local(f) if isinstance(n, ast.Assign) and any(isinstance(t, ast.Name) and t.id in {y.id for y in ast.walk(r.value) if isinstance(y, ast.Name)} for t in n.targets) for x in ast.walk(n.value))
+        if reads_children:
+            ctx.viol("G4-nth-domain", c, f"return {v[:60]}", site(r),
+                     "an occurrence count is taken over the container's direct children only; `nth` counts occurrences of the nonterminal anywhere within the container in document order, "
+                     "so occurrences nested inside earlier siblings (recursive grammars) are missed")
+        else:
+            raise Unrecognised("C04.G4", c, f"return {v[:60]} is not a recognised way of computing the occurrence index")
+    guard = any(isinstance(n, ast.If) and src(n.test) == f"not in_tree(None, {params[-2]}, {params[-1]})" for n in f.body) or any(isinstance(n, ast.If) and "in_tree(" in src(n.test) for n in f.body)
+    ctx.check(guard, "G4-nth-domain", c, "node_1 must lie within node_2", site(f), "containment guard missing", "guarded by inside")
+
+
 def rule_g3(ctx):
     m, entries = registry(ctx)
     for name, (_, fn, _, cname) in sorted(entries.items()):
@@ -299,5 +331,6 @@ def run(ctx) -> str:
     ctx.guarded("G1", lambda: rule_g1(ctx))
     ctx.guarded("G2", lambda: rule_g2(ctx))
     ctx.guarded("G3", lambda: rule_g3(ctx))
+    ctx.guarded("G4", lambda: rule_g4(ctx))
     ctx.assume("the predicate table of sphinx/islaspec.rst is the documented meaning")
     return EXPLANATION
